@@ -680,7 +680,38 @@ func init() {
 // dns.Msg.Pack / PackBuffer / Len are a contract, not an encoding: a message has a wire image
 // (arbitrary bytes of arbitrary length 12..24, fixed per message object); PackBuffer may build it
 // in the caller's buffer or in a fresh one (both are explored), or fail.
+// headerOnly: the message has no section at all -> its wire form is exactly the 12-byte header.
+func (st *State) headerOnly(p Ptr) (SliceV, bool) {
+	tt := st.tt
+	for _, sec := range []string{"Question", "Answer", "Ns", "Extra"} {
+		s := st.load(p.sub(st.fieldIndex(p, sec))).(SliceV)
+		if !s.Len.IsConst() || s.Len.Val != 0 {
+			return SliceV{}, false
+		}
+	}
+	h := p.sub(st.fieldIndex(p, "MsgHdr"))
+	get := func(name string) *Term { return st.load(h.sub(st.fieldIndex(h, name))).(*Term) }
+	bit := func(name string, k uint) *Term {
+		return tt.Ite(get(name), tt.Const(1<<k, 8), tt.Const(0, 8))
+	}
+	id := get("Id")
+	b2 := tt.Bin(OpBOr, bit("Response", 7), tt.Bin(OpBOr, tt.Bin(OpShl, tt.Bin(OpBAnd, tt.Extract(get("Opcode"), 7, 0), tt.Const(0xf, 8)), tt.Const(3, 8)),
+		tt.Bin(OpBOr, bit("Authoritative", 2), tt.Bin(OpBOr, bit("Truncated", 1), bit("RecursionDesired", 0)))))
+	b3 := tt.Bin(OpBOr, bit("RecursionAvailable", 7), tt.Bin(OpBOr, bit("Zero", 6), tt.Bin(OpBOr, bit("AuthenticatedData", 5),
+		tt.Bin(OpBOr, bit("CheckingDisabled", 4), tt.Bin(OpBAnd, tt.Extract(get("Rcode"), 7, 0), tt.Const(0xf, 8))))))
+	bs := []*Term{tt.Extract(id, 15, 8), tt.Extract(id, 7, 0), b2, b3}
+	for i := 0; i < 8; i++ {
+		bs = append(bs, tt.Const(0, 8))
+	}
+	o := st.bytesObject(bs, "header wire image")
+	n := tt.Const(12, 64)
+	return SliceV{Arr: Ptr{Obj: o}, Off: tt.Const(0, 64), Len: n, Cap: n}, true
+}
+
 func (st *State) wireImage(p Ptr) SliceV {
+	if h, ok := st.headerOnly(p); ok {
+		return h
+	}
 	k := "wire:" + p.key()
 	if v, ok := st.kv[k]; ok {
 		return v.(SliceV)
@@ -710,6 +741,9 @@ func init() {
 	}
 	// whether a message can be packed at all is decided once per message object
 	packFails := func(st *State, p Ptr) bool {
+		if _, ok := st.headerOnly(p); ok {
+			return false
+		}
 		k := "packfail:" + p.key()
 		if v, ok := st.kv[k]; ok {
 			return v.(bool)
